@@ -230,5 +230,41 @@ def remove (p : Padder) (st : PadState) (c : List Nat) : Except Err (List Nat) :
       let c1 := rstrip0 (c0.take (c0.length - 1) ++ [lb])
       if c1.length = 0 then .error "PaddingError" else cutLastOne c1
 
+/-- `reset()` (and the `.new` property, which calls it and returns the object): padflag, bitcnt and padcnt go
+    back to the values `__init__` gives them, whatever they were -/
+def reset (_p : Padder) (_st : PadState) : PadState := {}
+
+end Padder
+
+/-- one step of a history on ONE padding object -/
+inductive PadStep
+  /-- `iterblocks(m, bitlen=…, padding=…)`, run to exhaustion -/
+  | call (m : List Nat) (bitlen : Option Nat) (padding : Bool)
+  /-- `obj.reset()` / `obj.new` -/
+  | reset
+  /-- `obj.remove(c)`; `none`: c = the concatenation of the blocks emitted since the last reset -/
+  | remove (c : Option (List Nat))
+deriving Repr, Inhabited
+
+/-- what a step lets the caller observe -/
+inductive PadStepResult
+  | iter (r : IterResult)
+  /-- the object state right after a reset -/
+  | state (st : PadState)
+  /-- result of `remove` and the (unchanged) object state -/
+  | removed (r : Except Err (List Nat)) (st : PadState)
+deriving Repr, Inhabited
+
+namespace Padder
+
+/-- a history of steps on one object in state `st` that has emitted the bytes `em` since its last reset -/
+def runSteps (p : Padder) : PadState → List Nat → List PadStep → List PadStepResult
+  | _, _, [] => []
+  | st, em, .call m l f :: rest =>
+    let r := p.iterblocks st m l f
+    .iter r :: runSteps p r.final (em ++ (r.yields.map (·.1)).flatten) rest
+  | st, _, .reset :: rest => .state (p.reset st) :: runSteps p (p.reset st) [] rest
+  | st, em, .remove c :: rest => .removed (p.remove st (c.getD em)) st :: runSteps p st em rest
+
 end Padder
 end Model
